@@ -20,4 +20,5 @@ Definition dispatch (prop : string) (c : sexp) : sexp :=
   else if String.eqb prop "C06" then G14.run_sign_steps c
   else if String.eqb prop "C04" then G04.run c
   else if String.eqb prop "C09" then G03.run_reparse c
+  else if String.eqb prop "C02" then G14.run_roundtrip c
   else A "unknown-property".
